@@ -850,6 +850,26 @@ class Engine:
             r_ = dv(0)
             if isinstance(r_, tuple) and r_[0] == 'adt' and r_[1].endswith('RangeInclusive') and len(r_[4]) >= 2:
                 return one(('term', 'in_range', [self.purify(dv(1), s), r_[4][0], r_[4][1]]))
+        if c in ('core::mem::take', 'core::mem::replace') and args and isinstance(args[0], tuple) and args[0][0] == 'ref':
+            # mem::take(&mut place) / mem::replace(&mut place, v): returns the old value and WRITES the default / v into the place
+            root_, proj_ = args[0][1], tuple(args[0][2])
+            oldv = self.purify(self.load(root_, proj_, s), s)
+            ga_ = t.get('gargs') or ['']
+            newv = self.default_of(ga_[0]) if c.endswith('take') else self.purify(args[1], s)
+            if c.endswith('take') and isinstance(newv, tuple) and newv[0] == 'term' and ga_[0] in self.p.adts and self.p.adts[ga_[0]]['enum']:
+                # #[derive(Default)] on an enum: the variant marked #[default]
+                dv_ = [im for im in self.p.impls if im['adt'] == ga_[0] and im['trait'] == 'core::default::Default']
+                dfn = self.p.fns.get(dv_[0]['items'][0]['path']) if dv_ and dv_[0]['items'] else None
+                if dfn is not None and depth < 8:
+                    outs_d = self.run(dfn, [], s, depth + 1)
+                    rets_d = [o for o in outs_d if o.kind == 'return']
+                    if len(rets_d) == 1:
+                        newv = rets_d[0].value
+            self.store(root_, proj_, newv, s)
+            fsteps = [st_ for st_ in proj_ if st_[0] == 'f' and len(st_) > 3 and st_[3]]
+            if fsteps:
+                s.events.append(('write', fsteps[-1][3], fsteps[-1][2], newv, (fn['path'], t['sp']['line']), '.'.join(str(st_[2]) for st_ in proj_ if st_[0] == 'f')))
+            return one(oldv)
         if c.endswith('boxed::box_assume_init_into_vec_unsafe') or c.endswith('boxed::box_assume_init_into_vec'):
             # vec![a, b, c]: the element count is in the argument's type Box<MaybeUninit<[T; N]>>
             m = re.search(r'; (\d+)\]>+$', aty(0))
